@@ -466,8 +466,11 @@ def main():
                 for lvl in range(0, 3):
                     a = probe.axes[0]
                     pts |= set(float(x) for x in a) | set(float(probe.middle(x, y)) for x, y in zip(a, a[1:]))
+                    if lvl == 2:
+                        pts |= set(0.5 * (float(x) + float(y)) for x, y in zip(a, a[1:]))      # arithmetic mid-points too
                     probe.refine()
                 pts = sorted(pts)
+                pts = [pts[0]] + [q for p_, q in zip(pts, pts[1:]) if q - p_ > 1e-9 * max(1.0, abs(q))]
                 atoms = [(0.5 * (x + y), rng.randint(1, 6)) for x, y in zip(pts, pts[1:])]
                 atoms = [(pts[0] - 0.01, 3)] + atoms + [(pts[-1] + 0.01, 2)]
             except Exception as ex:
